@@ -117,6 +117,40 @@ def scen_linalg(which, method, seed, opts=None, operands=""):
     return call, keep
 
 
+class _Stencil(LinearOperator):
+    """matrix-free, non-symmetric, only _mv: adjoint products go through the library's own fallback"""
+
+    def __init__(self, d, c):
+        super().__init__(shape=(6, 6), is_hermitian=False, dtype=DT)
+        self.d = d
+        self.c = c
+
+    def _mv(self, x):
+        return self.d * x + self.c * torch.roll(x, 1, dims=-1)
+
+    def _getparamnames(self, prefix=""):
+        return [prefix + "d", prefix + "c"]
+
+
+def scen_longlived_operator(which, method, seed, rederived):
+    """ONE user-defined operator object built outside the loop and handed to every call (the other linear-algebra scenarios rebuild
+    their operators per call); rederived: its tensor is re-computed from a learnable parameter before every call"""
+    raw = torch.linspace(3.0, 4.0, 6, dtype=DT).requires_grad_()
+    c = torch.linspace(0.5, 1.0, 6, dtype=DT).requires_grad_()
+    B = torch.linspace(1.0, 2.0, 12, dtype=DT).reshape(6, 2).requires_grad_()
+    op = _Stencil(raw, c)
+    keep = (raw, c, B, op)
+
+    def call():
+        if rederived:
+            op.d = torch.nn.functional.softplus(raw)
+        if which == "solve":
+            return xitorch.linalg.solve(op, B, method=method, **({"rtol": 1e-12, "atol": 1e-12} if method != "exactsolve" else {})), [raw, c, B]
+        u, s_, vh = xitorch.linalg.svd(op, k=2, method=method)
+        return torch.cat([s_, (u ** 2).reshape(-1), (vh ** 2).reshape(-1)]), [raw, c]
+    return call, keep
+
+
 def scen_singular(which, seed):
     """inputs that send the direct shifted solve through its singular-matrix fallback (a shift exactly on the spectrum)"""
     d = torch.tensor([1.0, 2.0, 3.0, 4.0, 5.0], dtype=DT).requires_grad_()
@@ -182,6 +216,11 @@ def scenarios(thorough, seed):
     for m in (["exactsolve", "cg", "bicgstab", "broyden1", "custom_exactsolve"] if thorough else ["exactsolve", "cg", "bicgstab"]):
         for operands in (("E", "EM") if thorough else ("EM",)):
             out.append(("solve/%s/dense+%s" % (m, operands), lambda m=m, operands=operands: scen_linalg("solve", m, seed, operands=operands)))
+    # operators that outlive the calls (matrix-free, adjoint products through the fallback)
+    for m in (["bicgstab", "gmres", "exactsolve", "cg"] if thorough else ["bicgstab", "exactsolve"]):
+        for red in (False, True):
+            out.append(("solve/%s/long-lived-mv-only-operator%s" % (m, "+rederived" if red else ""), lambda m=m, red=red: scen_longlived_operator("solve", m, seed, red)))
+    out.append(("svd/exacteig/long-lived-mv-only-operator", lambda: scen_longlived_operator("svd", "exacteig", seed, True)))
     out.append(("svd/davidson/dense", lambda: scen_linalg("svd", "davidson", seed)))
     out.append(("svd/exacteig/dense", lambda: scen_linalg("svd", "exacteig", seed)))
     out.append(("symeig/custom_exacteig/exactly-representable-spectrum", lambda: scen_singular("symeig-backward", seed)))
